@@ -10,6 +10,42 @@ def sh(cmd, cwd, env=None, timeout=1800):
     return r.returncode, r.stdout, r.stderr
 
 
+WIRE_MEM_GB = 12      # address-space limit for one run of the wire binary
+WIRE_TIMEOUT = 900    # seconds for the whole corpus; a single package gets 60 s
+
+
+def run_wire(cmd, cwd, env=None, timeout=WIRE_TIMEOUT, mem_gb=WIRE_MEM_GB):
+    """Runs the wire binary under a time and memory limit. Returns (rc, out, err, stopped) where stopped is
+    None, 'timeout' or 'memory' (C07: Wire terminates on every input)."""
+    import resource
+
+    def limit():
+        resource.setrlimit(resource.RLIMIT_AS, (mem_gb << 30, mem_gb << 30))
+    try:
+        r = subprocess.run(cmd, cwd=cwd, env=env or GOENV, capture_output=True, text=True, timeout=timeout, preexec_fn=limit)
+    except subprocess.TimeoutExpired as e:
+        return -1, '', (e.stderr or b'').decode('utf-8', 'replace') if isinstance(e.stderr, bytes) else (e.stderr or ''), 'timeout'
+    stopped = None
+    if 'out of memory' in r.stderr or 'cannot allocate memory' in r.stderr or r.returncode in (-9, 137):
+        stopped = 'memory'
+    return r.returncode, r.stdout, r.stderr, stopped
+
+
+def find_nonterminating(wire, mod, specs):
+    """After a corpus-wide run was stopped: which packages make wire run away when generated alone?"""
+    import concurrent.futures as cf
+
+    def one(sp):
+        rc, out, err, stopped = run_wire([wire, 'gen', './' + sp.pkg], mod, timeout=60, mem_gb=3)
+        return sp, stopped
+    bad = []
+    with cf.ThreadPoolExecutor(max_workers=8) as ex:
+        for sp, stopped in ex.map(one, specs):
+            if stopped:
+                bad.append((sp, stopped))
+    return bad
+
+
 def build_wire(pid):
     exe = os.path.join(workdir(pid), 'wire')
     rc, out, err = sh(['go', 'build', '-o', exe, './cmd/wire'], REPO)
@@ -199,7 +235,31 @@ def run_sideb(pid, specs, props_filter=None, label='sideB', determinism=False):
         res['inconclusive_list'].append('cannot build cmd/wire from the tree: ' + err[-400:])
         return res
     mod = make_module(pid, specs)
-    rc, out, err = sh([wire, 'gen', './...'], mod)
+    rc, out, err, stopped = run_wire([wire, 'gen', './...'], mod)
+    if stopped:
+        bad = find_nonterminating(wire, mod, specs)
+        for sp, why in bad:
+            res['confirmed'].append(dict(cls='C07,C20:wire does not terminate', props=['C07', 'C20'] + list(getattr(sp, 'reject_props', []) or []),
+                                         msg='wire gen ./%s (%s) was stopped by the %s limit (60 s / 3 GB for one small package): analysis does not terminate' % (sp.pkg, sp.label, why),
+                                         artifact_dir=os.path.join(mod, sp.pkg), model=None, harness=label))
+        if not bad:
+            res['inconclusive_list'].append('wire gen over the corpus was stopped by the %s limit and no single package reproduces it' % stopped)
+            return res
+        # carry on with the remaining packages
+        badset = {sp.pkg for sp, _ in bad}
+        specs = [sp for sp in specs if sp.pkg not in badset]
+        rc, err = 0, ''
+        for i in range(0, len(specs), 60):
+            rc2, out2, err2, st2 = run_wire([wire, 'gen'] + ['./' + sp.pkg for sp in specs[i:i + 60]], mod)
+            if st2:
+                res['inconclusive_list'].append('wire gen was stopped by the %s limit again after excluding %s' % (st2, ', '.join(sorted(badset))))
+                for c in res['confirmed']:
+                    c['class'] = c['cls']
+                if props_filter:
+                    res['confirmed'] = [c for c in res['confirmed'] if props_filter in c['props']]
+                return res
+            rc |= rc2
+            err += err2
     if 'panic:' in err or 'goroutine ' in err:
         m = re.search(r'panic: [^\n]*', err)
         res['confirmed'].append(dict(cls='C20,C10:wire panicked', props=['C20', 'C10'], msg='wire gen crashed on a corpus of well-formed programs: %s' % (m.group(0) if m else err[-300:]),
